@@ -370,6 +370,13 @@ def constructor_cases(tier):
         (dict(min_layout_traps=0), False),
         (dict(max_atom_num=5, max_layout_traps=10, max_layout_filling=0.5), True),
         (dict(max_atom_num=6, max_layout_traps=10, max_layout_filling=0.5), False),
+        # fillings whose product with the number of traps is a whole number mathematically but falls just below it in floating point
+        (dict(max_atom_num=29, max_layout_traps=100, max_layout_filling=0.29), True), (dict(max_atom_num=30, max_layout_traps=100, max_layout_filling=0.29), False),
+        (dict(max_atom_num=57, max_layout_traps=100, max_layout_filling=0.57), True), (dict(max_atom_num=58, max_layout_traps=100, max_layout_filling=0.57), False),
+        (dict(max_atom_num=29, max_layout_traps=50, max_layout_filling=0.58), True), (dict(max_atom_num=7, max_layout_traps=100, max_layout_filling=0.07), True),
+        (dict(max_atom_num=21, max_layout_traps=30, max_layout_filling=0.7), True), (dict(max_atom_num=22, max_layout_traps=30, max_layout_filling=0.7), False),
+        (dict(max_atom_num=21, max_layout_traps=60, max_layout_filling=0.35), True), (dict(max_atom_num=42, max_layout_traps=60, max_layout_filling=0.7), True),
+        (dict(max_atom_num=7, max_layout_traps=20, max_layout_filling=0.35), True), (dict(max_atom_num=9, max_layout_traps=20, max_layout_filling=0.45), True),
         (dict(max_sequence_duration=1), True), (dict(max_sequence_duration=0), False), (dict(max_runs=1), True), (dict(max_runs=0), False),
         (dict(rydberg_level=50), True), (dict(rydberg_level=100), True), (dict(rydberg_level=49), False), (dict(rydberg_level=101), False),
         (dict(min_atom_distance=-1e-9), False), (dict(max_radial_distance=0), False), (dict(max_radial_distance=1), True), (dict(max_atom_num=0), False),
